@@ -120,6 +120,95 @@ proof! {
 	}
 }
 
+#[cfg(kani)]
+mod agg {
+	use super::*;
+	use crate::secp_model as m;
+	use grin_core::core::transaction::{aggregate, deaggregate, CommitWrapper, FeeFields, KernelFeatures};
+	use grin_core::core::{Inputs, Transaction, TxKernel};
+	use grin_keychain::BlindingFactor;
+	use grin_util::secp::Signature;
+
+	fn fee_fields(fee: u64) -> FeeFields {
+		let b = fee.to_be_bytes();
+		grin_core::ser::deserialize_default(&mut &b[..]).unwrap()
+	}
+	/// a transaction with one input and one kernel (no outputs: 675-byte range proofs are opaque
+	/// to aggregation and only slow the query down), symbolic commitment / excess / fee / offset
+	pub fn any_tx() -> (Transaction, Commitment, Commitment, u16) {
+		let (v, r): (u16, u16) = (nd::any(), nd::any());
+		nd::assume(v != 0 || r != 0);
+		let input = m::pack(v, r);
+		let (kv, kr): (u16, u16) = (nd::any(), nd::any());
+		nd::assume(kv != 0 || kr != 0);
+		let excess = m::pack(kv, kr);
+		let fee: u64 = nd::any();
+		nd::assume(fee >= 1 && fee < (1 << 40));
+		let off: u16 = nd::any();
+		let s = [1u8; 64];
+		let kernel = TxKernel { features: KernelFeatures::Plain { fee: fee_fields(fee) }, excess, excess_sig: Signature::from_raw_data(&s).unwrap() };
+		let tx = Transaction::new(Inputs::CommitOnly(vec![CommitWrapper::from(input)]), &[], &[kernel])
+			.with_offset(BlindingFactor::from_secret_key(m::key_of(off)));
+		(tx, input, excess, off)
+	}
+	pub fn has_input(tx: &Transaction, c: &Commitment) -> bool {
+		let ins: Vec<CommitWrapper> = tx.inputs().into();
+		let mut i = 0;
+		let mut f = false;
+		while i < ins.len() {
+			if ins[i].commitment() == *c {
+				f = true;
+			}
+			i += 1;
+		}
+		core::mem::forget(ins);
+		f
+	}
+	pub fn has_kernel(tx: &Transaction, c: &Commitment) -> bool {
+		let ks = tx.kernels();
+		let mut i = 0;
+		let mut f = false;
+		while i < ks.len() {
+			if ks[i].excess == *c {
+				f = true;
+			}
+			i += 1;
+		}
+		f
+	}
+	pub fn offset_of(tx: &Transaction) -> u16 {
+		let b = tx.offset.as_ref();
+		b[0] as u16 | (b[1] as u16) << 8
+	}
+}
+
+#[cfg(kani)]
+proof! {
+	[secp, hash_mix, sort] fn aggregate_two_independent() {
+		// aggregate([a, b]) for two transactions that do not spend each other: kernels are the
+		// union, inputs the union, the offset is the sum of the offsets (model scalar group), and
+		// the result does not depend on the order of the operands
+		use agg::*;
+		use grin_core::core::transaction::aggregate;
+		let (a, ia, ka, oa) = any_tx();
+		let (b, ib, kb, ob) = any_tx();
+		nd::assume(ia != ib && ka != kb);
+		let ab = aggregate(&[a.clone(), b.clone()]);
+		check!(ab.is_ok(), "two independent transactions aggregate");
+		let ab = ab.unwrap();
+		check!(ab.kernels().len() == 2 && has_kernel(&ab, &ka) && has_kernel(&ab, &kb), "kernels are the union");
+		check!(ab.inputs().len() == 2 && has_input(&ab, &ia) && has_input(&ab, &ib), "inputs are the union");
+		check!(ab.outputs().is_empty(), "no outputs appear");
+		check!(offset_of(&ab) == oa.wrapping_add(ob), "offset is the sum of the offsets");
+		let ba = aggregate(&[b, a]).unwrap();
+		check!(ba.kernels()[0].excess == ab.kernels()[0].excess && ba.kernels()[1].excess == ab.kernels()[1].excess, "operand order does not matter (kernels)");
+		check!(offset_of(&ba) == offset_of(&ab), "operand order does not matter (offset)");
+		cover!(oa != 0 && ob != 0 && oa.wrapping_add(ob) == 0, "offsets cancel");
+		core::mem::forget(ab);
+		core::mem::forget(ba);
+	}
+}
+
 pub const HARNESSES: &[(&str, fn())] = &[
 	("c12::cut_through_2_2", cut_through_2_2),
 	("c12::cut_through_1_2", cut_through_1_2),
